@@ -51,6 +51,9 @@ INITIALS = {
     "empty": {},
     "ascii": {"a": val(40), "b": "x"},
     "unicode": {"clé": "välue-中", "a": val(40)},
+    # text that a lenient decoder would alter: a leading U+FEFF (byte-order mark) in key and value, a key that
+    # differs from another only by it, and a decomposed spelling (e + U+0301) next to the composed one
+    "marks": {"\ufeffk": "\ufeffvalue", "k": "plain", "cle\u0301": "nfd", "clé": "nfc", "a": val(40)},
     "bytes": {b"bk": b"bv", "a": val(40)},
     "emptyval": {"e": "", "a": val(40)},
     "large": {"big": val(70000), "a": val(40)},
@@ -103,6 +106,8 @@ def operations(full, level=1, tier="quick"):
     # key identity across encodings
     ops.append({"clé": "x"})                                   # add / replace under a non-ASCII key
     ops.append({"clé": None})                                  # remove a non-ASCII key
+    ops.append({"\ufeffa": "bom"})                             # a key that differs from "a" by a leading U+FEFF
+    ops.append({"\ufeffa": None, "cle\u0301": "n2"})           # remove it again; decomposed spelling of "clé"
     ops.append({b"a": b"q"})                                   # a str-written key addressed through bytes
     ops.append({"bk": None})                                   # a bytes-written key addressed through str
     ops.append({b"\xff\xfe": b"\xe2\x00"})                     # key and value that are not UTF-8
